@@ -305,3 +305,111 @@ func (p Peer) NMAddr(withDev bool) FAddr {
 	}
 	return a
 }
+
+// Twins is a history for the by-connection delete rule: two peers that cannot be told apart by
+// address - both announce the same device address and the same tree, or neither has answered the
+// discovery request yet (no device address; they use their node-management features) - obtain
+// subscriptions (bind = false) or bindings (bind = true) and delete them, their own and each
+// other's, in a random order, with listings of both and a data change after every delete.
+func Twins(r *hx.Rng, bind bool) []hx.Zs {
+	var h []hx.Zs
+	e := []int64{1}
+	h = append(h, OpAddLocalEntity(e),
+		OpAddLocalFeature(e, 1, 1), OpAddFunction(e, 1, 1, true, true),
+		OpAddLocalFeature(e, 2, 1), OpAddFunction(e, 2, 3, true, true))
+	srv := []FAddr{{Dev: 1, Ent: e, Feat: 2}, {Dev: 1, Ent: e, Feat: 3}}
+	nm := FAddr{Dev: 1, Ent: []int64{0}, Feat: 1}
+	addressless := r.Chance(1, 3)
+	peers := []Peer{}
+	for k := int64(1); k <= 2; k++ {
+		p := Peer{Ski: k, Dev: 1, Ents: [][]int64{{0}, {1}}, Feats: []RFeat{{Ent: []int64{0}, Id: 0, Type: 5, Role: 2},
+			{Ent: []int64{1}, Id: 1, Type: 1, Role: 0}, {Ent: []int64{1}, Id: 2, Type: 2, Role: 0}}}
+		peers = append(peers, p)
+		h = append(h, OpConnect(k))
+		if !addressless {
+			h = append(h, OpDiscoveryReply(k, p.Msg(0, nil)))
+		}
+	}
+	ctr := map[int64]int64{}
+	next := func(p int64) int64 { ctr[p]++; return 100*p + ctr[p] }
+	lists := func() {
+		for _, p := range peers {
+			if bind {
+				h = append(h, OpListBinds(p.Ski))
+			} else {
+				h = append(h, OpListSubs(p.Ski))
+			}
+		}
+	}
+	change := func() {
+		h = append(h, OpSetData(e, 1, 1, int64(r.Range(1, 900))), OpSetData(e, 2, 3, int64(r.Range(1, 900))))
+	}
+	type pair struct {
+		cli, srv FAddr
+		t        int64
+	}
+	var held [2][]pair // what each peer asked for
+	devOf := func(with bool) int64 {
+		if with && !addressless {
+			return 2
+		}
+		return 0
+	}
+	for k, p := range peers {
+		var want []pair
+		switch {
+		case addressless:
+			want = []pair{{FAddr{Ent: []int64{0}, Feat: 1}, nm, 6}}
+		case bind: // at most one binding per server feature: the twins bind to different ones
+			want = []pair{{FAddr{Dev: devOf(r.Bool()), Ent: e, Feat: int64(k) + 2}, srv[k], int64(k) + 2}}
+		default:
+			want = []pair{{FAddr{Dev: devOf(r.Bool()), Ent: e, Feat: 2}, srv[0], 2}}
+			if r.Bool() {
+				want = append(want, pair{FAddr{Dev: devOf(r.Bool()), Ent: e, Feat: 3}, srv[1], 3})
+			}
+		}
+		for _, w := range want {
+			if bind {
+				h = append(h, OpBindCall(p.Ski, next(p.Ski), r.Bool(), w.cli, w.srv, w.t))
+			} else {
+				h = append(h, OpSubCall(p.Ski, next(p.Ski), r.Bool(), w.cli, w.srv, w.t))
+			}
+		}
+		held[k] = want
+	}
+	lists()
+	change()
+	// deletes: own and the twin's pairs, in a random order, some repeated
+	type del struct {
+		by int
+		w  pair
+	}
+	var dels []del
+	for k := range peers {
+		for _, w := range held[k] {
+			dels = append(dels, del{k, w}, del{1 - k, w})
+		}
+	}
+	for i := len(dels) - 1; i > 0; i-- {
+		j := r.Intn(i + 1)
+		dels[i], dels[j] = dels[j], dels[i]
+	}
+	if r.Bool() && len(dels) > 0 {
+		dels = append(dels, dels[r.Intn(len(dels))])
+	}
+	for _, d := range dels {
+		p := peers[d.by]
+		cli := d.w.cli
+		cli.Dev = devOf(r.Bool())
+		if bind {
+			h = append(h, OpBindDelete(p.Ski, next(p.Ski), r.Bool(), cli, d.w.srv))
+		} else {
+			h = append(h, OpSubDelete(p.Ski, next(p.Ski), r.Bool(), cli, d.w.srv))
+		}
+		lists()
+		if !bind {
+			change()
+		}
+	}
+	return h
+}
